@@ -121,7 +121,11 @@ Totals == << "select name from . order by sqrt(size - 50)", "select name from . 
              "select name from . where modified >= '-9223372036854775807'", "select ext, count(*) from . group by 0", "select ext, count(*) from . group by ext, 0",
              "select ext, count(*) from . group by 00", "select count(*) from . group by 1", "select name from . order by 00", "select name from . limit 0 into json",
              "select name from 'sub/[' depth 1 rx", "select name from '[a' maxdepth 2 regexp", "select name from 's*(' depth 1 rx",
-             "select name from . order by -{size + 1}", "select -{size + 1}, +{size} from .", "select name from . where size > -{1 - 3}" >>
+             "select name from . order by -{size + 1}", "select -{size + 1}, +{size} from .", "select name from . where size > -{1 - 3}",
+             \* a LIMIT beyond the number of groups (also of no group at all); the home directory as root, written in every way
+             "select ext, count(*) from . group by ext limit 50", "select ext, count(*) from . where name = 'nothing' group by ext limit 3",
+             "select ext, count(*) from . group by ext order by ext limit 50 into json", "select name from ~", "select name from '~'", "select name from ~nobody depth 1",
+             "select name from ~/ depth 1", "select name from ., ~ depth 1" >>
 ChooseTotal == /\ phase = "start" /\ "reject" \in Kinds /\ kind' = "query" /\ phase' = "done"
                /\ \E i \in 1 .. Len(Totals) : argv' = <<Totals[i]>> /\ label' = "q" \o ToString(i)
                /\ expect' = "total" /\ UNCHANGED <<toks, muts>>
